@@ -7,6 +7,7 @@ import SnapraidVerif.Codec.Content
 import SnapraidVerif.Codec.Save
 import SnapraidVerif.Array.ScrubPlan
 import SnapraidVerif.Parity.Split
+import SnapraidVerif.Filter.Rules
 
 open SnapraidVerif SnapraidVerif.GF SnapraidVerif.Raid SnapraidVerif.Codec
 
@@ -164,6 +165,42 @@ def handle (toks : List String) : String :=
       | some t => "ok " ++ String.intercalate " " (t.map fun x => s!"{x.size}/{x.fsz}")
       | none => "fail"
     | _, _, _, _, _ => "bad-op"
+  | ["fnm", fl, pat, str] =>
+    let dec (h : String) : Option (List UInt8) := if h = "-" then some [] else parseHex8 h
+    match fl.toNat?, dec pat, dec str with
+    | some fl, some p, some t => if Filter.fnm (fl % 2 == 1) p t then "1" else "0"
+    | _, _, _ => "bad-op"
+  | "filter" :: n :: rest =>
+    let dec (h : String) : Option (List UInt8) := if h = "-" then some [] else parseHex8 h
+    match n.toNat? with
+    | none => "bad-op"
+    | some n =>
+      let rulesT := rest.take n
+      let tail := rest.drop n
+      match tail with
+      | [kind, disk, sub] =>
+        let parseRule (t : String) : Option (Option Filter.Rule) :=
+          match t.toList with
+          | k :: ':' :: h => match dec (String.ofList h) with
+            | none => none
+            | some pat =>
+              if k = 'i' then some (Filter.allocFile true pat) else if k = 'e' then some (Filter.allocFile false pat)
+              else if k = 'I' then some (Filter.allocDisk true pat) else if k = 'E' then some (Filter.allocDisk false pat)
+              else none
+          | _ => none
+        let rs := rulesT.map parseRule
+        if rs.any (·.isNone) then "bad-op" else
+        let rs := rs.filterMap id
+        match rs.findIdx? (·.isNone) with
+        | some i => s!"invalid-rule {i}"
+        | none =>
+          let rules := rs.filterMap id
+          match dec disk, dec sub with
+          | some d, some sb =>
+            let ex := if kind = "f" then Filter.filterPath rules d sb else if kind = "d" then Filter.filterSubdir rules d sb else Filter.filterEmptydir rules d sb
+            if ex then "-1" else "0"
+          | _, _ => "bad-op"
+      | _ => "bad-op"
   | "save-accepts" :: ops =>
     let parsed := ops.map fun t =>
       match t.toList with
